@@ -3,6 +3,7 @@ package config
 import (
 	"errors"
 	"fmt"
+	"reflect"
 	"strings"
 )
 
@@ -14,6 +15,12 @@ type parser struct {
 
 func newParser(src string) *parser {
 	return &parser{lex: newLexer(src)}
+}
+
+func isEmptyConfig(cfg *Config) bool {
+	c := *cfg
+	c.Preamble = nil
+	return reflect.DeepEqual(c, Config{})
 }
 
 func (p *parser) parse() (*Config, error) {
@@ -74,7 +81,9 @@ func (p *parser) parse() (*Config, error) {
 		}
 	}
 
-	if !sawStmt {
+	// A file whose only statements are empty channel wrappers (`internal { }`)
+	// carries nothing either: Format would print an empty file.
+	if !sawStmt || isEmptyConfig(cfg) {
 		return nil, nil
 	}
 	return cfg, nil
